@@ -70,7 +70,7 @@ def search(ctx):
         out = os.path.join(ctx["rundir"], f"search{k}")
         os.makedirs(out, exist_ok=True)
         try:
-            rc, o, dt = r.sh([ctx["hbin"], "-seed", str(ctx["seed"] * 100 + 17 + k), "-out", out, "-tier", "thorough"], env=r.GOENV, timeout=1500)
+            rc, o, dt = r.sh([ctx["hbin"], "-seed", str(ctx["seed"] * 100 + 17 + k), "-out", out, "-tier", "quick"], env=r.GOENV, timeout=600)
         except subprocess.TimeoutExpired:
             continue
         sp = os.path.join(out, "stats.json")
